@@ -37,6 +37,27 @@ func implParse(doc []byte, nd, copyStrings bool, reuse *simdjson.ParsedJson) (ou
 	return ParseOut{PJ: pj, Tape: pj.Tape, Strings: pj.Strings.B}
 }
 
+// implParseDefault calls Parse/ParseND without any option (string copying is
+// the documented default).
+func implParseDefault(doc []byte, nd bool, reuse *simdjson.ParsedJson) (out ParseOut) {
+	defer func() {
+		if r := recover(); r != nil {
+			out = ParseOut{Err: true, Panic: fmt.Sprint(r)}
+		}
+	}()
+	var pj *simdjson.ParsedJson
+	var err error
+	if nd {
+		pj, err = simdjson.ParseND(doc, reuse)
+	} else {
+		pj, err = simdjson.Parse(doc, reuse)
+	}
+	if err != nil {
+		return ParseOut{Err: true}
+	}
+	return ParseOut{PJ: pj, Tape: pj.Tape, Strings: pj.Strings.B}
+}
+
 func tapeHex(t []uint64) string {
 	if len(t) == 0 {
 		return "-"
